@@ -164,7 +164,6 @@ CHECKS.update({
         "masses and ordering; find_link on blob movies and noise textures checked by the monitor. Completeness half proved for the model (C14_movie_complete, C14_equals_detect_then_link) under boolean hypotheses evaluated in Coq on every generated movie. Route T: FindLinker.percentile_threshold / get_relocate_candidates / relocate are REGENERATED from /repo's source on every run (tools/py2coq_findlink.py -> coq/Gen/findlink.v) and proved to be the model's relocation oracle; the safety theorems are restated for it.",
    note=STAT_NOTE + "The completeness half (complete trajectories whatever is withheld; equals detect-then-link when nothing is withheld) is an analytic statement about blob images: no theorem "
         "is possible, it is monitored on generated movies with withholding patterns. Isotropic parameters, integer pixel coordinates, no predictor; subnet bookkeeping of FindLinker is tied "
-        "only through the monitor."),
+        "only through the monitor.",
+   technique="machine-checked proofs over an executable Gallina model + translator from Python source to Coq (regenerated per run, proved equal to the model) + correspondence run"),
 })
-,
-   technique="machine-checked proofs over an executable Gallina model + translator from Python source to Coq (regenerated per run, proved equal to the model) + correspondence run"
